@@ -7,7 +7,10 @@ package oracle
 import (
 	"encoding/json"
 	"fmt"
+	"os"
 	"sort"
+	"strconv"
+	"strings"
 	"testing"
 
 	"cosmossdk.io/math"
@@ -66,7 +69,18 @@ type args struct {
 }
 
 func newWorld() *world {
-	e := env.NewE1(env.E1Options{Seed: drv.Seed(), Chains: []string{chain}, Powers: []int64{34, 33, 33}})
+	powers := []int64{34, 33, 33}
+	if s := os.Getenv("VERIF_ORACLE_POWERS"); s != "" { // other initial power distributions (checks/c02.py)
+		powers = nil
+		for _, f := range strings.Split(s, ",") {
+			p, err := strconv.ParseInt(f, 10, 64)
+			if err != nil {
+				panic(err)
+			}
+			powers = append(powers, p)
+		}
+	}
+	e := env.NewE1(env.E1Options{Seed: drv.Seed(), Chains: []string{chain}, Powers: powers})
 	h := skywaykeeper.NewSkywayProposalHandler(e.Skyway)
 	if err := h(e.Ctx, &st.SetERC20ToDenomProposal{Title: "t", Description: "d", ChainReferenceId: chain, Erc20: goodToken, Denom: denom}); err != nil {
 		panic(err)
